@@ -1,9 +1,14 @@
 ------------------------------ MODULE Emit_C09 ------------------------------
 EXTENDS Thresholds, Json, IOUtils, SequencesExt
-Xs == {R(1, 8), R(1, 4), R(1, 2), R(3, 4)}
+CONSTANT DEEP      \* thorough tier: a finer lattice
+Xs == IF DEEP THEN {R(1, 16), R(1, 8), R(1, 4), R(3, 8), R(1, 2), R(5, 8), R(3, 4), R(7, 8), R(9, 10)}
+      ELSE {R(1, 8), R(1, 4), R(1, 2), R(3, 4)}
 \* charm mass 3/2 (m2 = 9/4), bottom mass 9/2 (m2 = 81/4); Q2 chosen so that some points sit EXACTLY on a threshold:
 \*   Q2 (1-x)/x = 4 m2 = 9  at (x=1/2,Q2=9), (x=1/4,Q2=3), (x=3/4,Q2=27)
-Q2s == {RI(3), RI(9), RI(27), RI(12), RI(100), RI(2)}
+\* deep: more exact hits  (x=3/8,Q2=27/5 no; x=1/10... ) 4 m_c^2 = 9: (9/10, 81), (1/2, 9), (1/4, 3), (3/4, 27), (1/16 -> 3/5);
+\*       4 m_b^2 = 81: (1/4, 27), (1/2, 81), (3/4, 243), (9/10, 729)
+Q2s == IF DEEP THEN {RI(2), RI(3), R(3, 5), RI(5), RI(9), RI(12), RI(27), RI(45), RI(81), RI(100), RI(243), RI(729), RI(2000)}
+       ELSE {RI(3), RI(9), RI(27), RI(12), RI(100), RI(2)}
 \* (mass^2, heavy quark, NfFF): the threshold of a heavy quark is set by ITS OWN mass whatever the number of light flavours
 \* (bottom as second massive quark with NfFF = 3, as first with NfFF = 4); 4 m_b^2 = 81 is met exactly at (x=1/4, Q2=27)
 HQs == {<<R(9, 4), 4, 3>>, <<R(81, 4), 5, 3>>, <<R(81, 4), 5, 4>>}
